@@ -386,6 +386,17 @@ inductive Op
   | invalidate (d : Nat)
   | reset
   | track (e j : Nat)
+  -- the steps `InvalidateDialerNetworkType`, `retire` and a creation consist of, on their own: the
+  -- harness parks the real calls between them (yield points invalidate.afterEpochBump,
+  -- retire.afterMarkDead / afterSelfRemove, create.beforePublish), so histories may interleave
+  -- anything there
+  | invalBump (d : Nat)
+  | markDead (e : Nat)
+  | selfRemove (e : Nat)
+  | prepCreate (k : Nat) (drain : Option Nat) (d : Nat)
+  /-- publish an endpoint object built earlier (its generation may be stale by now); only open,
+  never-closed objects are ever published -/
+  | publish (E : Ep)
   deriving DecidableEq, Repr
 
 /-- number of pool keys the janitor / Reset enumerate (the model's key universe) -/
@@ -402,6 +413,11 @@ def step (s : St) : Op → St
   | .invalidate d => (invalidate s d).1
   | .reset => reset nkeys s
   | .track e j => track s e j
+  | .invalBump d => invalBump s d
+  | .markDead e => markDead s e
+  | .selfRemove e => selfRemove s e
+  | .prepCreate k drain d => countDial (prepCreate s k drain d)
+  | .publish E => if E.closed = false ∧ E.connCloses = 0 then publishEp s E else s
 
 def run : St → List Op → St
   | s, [] => s
